@@ -153,7 +153,7 @@ def analyse_try_from_iter(ctx, cfg, fn, MAX):
             wv = field(ip, o.state, part, 'comp_witness')
             if ip.entails(o.state, eq(T.typed(('len', items), 'usize'), I(0))):
                 kinds.add('ok-empty')
-                okg = lst == items and wv == I(0)
+                okg = (lst == items or lst == V) and wv == I(0)      # the empty vector, sorted or not
                 role = 'empty-input-gives-empty-partition'
             else:
                 kinds.add('ok')
